@@ -6,13 +6,14 @@ Open Scope nat_scope.
 
 (** the case the model produces for a history *)
 Definition model_case (cap : nat) (pool : list cert) (ops : list op) (queries : list name) : case :=
-  Case cap pool (combine ops (trace cap init ops))
+  Case cap pool (combine (map Some ops) (trace cap init ops))
        (map (fun q => (q, map c_hash (all_matching (run cap init ops) q))) queries).
 Definition case_certs_of (pool : list cert) (ops : list op) : list cert :=
   pool ++ flat_map certs_of_op ops.
 
-Lemma flat_map_combine_fst {B} (f : op -> list B) cap ops : forall s,
-  flat_map (fun st : op * state => f (fst st)) (combine ops (trace cap s ops)) = flat_map f ops.
+Lemma flat_map_combine_fst cap ops : forall s,
+  flat_map (fun st : option op * state => certs_of_step (fst st)) (combine (map Some ops) (trace cap s ops)) =
+  flat_map certs_of_op ops.
 Proof. induction ops as [|o ops IH]; intros s; cbn; [reflexivity|]. rewrite IH. reflexivity. Qed.
 
 Lemma case_certs_model cap pool ops queries :
@@ -26,7 +27,7 @@ Proof.
 Qed.
 
 Lemma final_obs_model cap ops : forall s,
-  last (map snd (combine ops (trace cap s ops))) s = run cap s ops.
+  last (map snd (combine (map Some ops) (trace cap s ops))) s = run cap s ops.
 Proof.
   induction ops as [|o ops IH]; intros s; [reflexivity|].
   cbn [trace combine map snd]. rewrite last_cons. apply IH.
@@ -68,25 +69,25 @@ Section Spec.
     apply cert_eqb_eq. reflexivity.
   Qed.
 
-  Lemma step_spec_model s o : Inv s -> step_spec_b s o (step cap s o) = true.
+  Lemma step_spec_model s o : Inv s -> step_spec_b s (Some o) (step cap s o) = true.
   Proof. intros HI. destruct o; cbn [step_spec_b step]; try reflexivity. apply readd_ok_model, HI. Qed.
 
   Lemma steps_spec_model ops : forall s,
-    Inv s -> Forall (wf_op names_of) ops -> steps_spec s (combine ops (trace cap s ops)) = true.
+    Inv s -> Forall (wf_op names_of) ops -> steps_spec s (combine (map Some ops) (trace cap s ops)) = true.
   Proof.
     induction ops as [|o ops IH]; intros s HI Hwf; [reflexivity|].
-    inversion Hwf as [|? ? Ho Hops]; subst. cbn [trace combine steps_spec].
+    inversion Hwf as [|? ? Ho Hops]; subst. cbn [trace combine steps_spec map].
     rewrite step_spec_model by assumption. cbn [andb].
     apply IH; [apply step_inv; assumption | assumption].
   Qed.
 
   Lemma inv_b_model (U1 : state -> list name) (U2 : state -> list hash) ops : forall s,
     Inv s -> Forall (wf_op names_of) ops ->
-    forallb (fun st : op * state => inv_b names_of cap (U1 (snd st)) (U2 (snd st)) (snd st))
-            (combine ops (trace cap s ops)) = true.
+    forallb (fun st : option op * state => inv_b names_of cap (U1 (snd st)) (U2 (snd st)) (snd st))
+            (combine (map Some ops) (trace cap s ops)) = true.
   Proof.
     induction ops as [|o ops IH]; intros s HI Hwf; [reflexivity|].
-    inversion Hwf as [|? ? Ho Hops]; subst. cbn [trace combine forallb snd].
+    inversion Hwf as [|? ? Ho Hops]; subst. cbn [trace combine forallb snd map].
     assert (HI' : Inv (step cap s o)) by (apply step_inv; assumption).
     rewrite (inv_b_complete names_of cap _ _ _ HI'). cbn [andb]. apply IH; assumption.
   Qed.
